@@ -9,7 +9,7 @@ LEAN_MODULES = ["Econf.Props.C06"]
 THEOREMS = ["Econf.C06_file", "Econf.readSeq_spec", "Econf.readFirst_spec", "Econf.C06_history_trace", "Econf.C06_no_config",
             "Econf.C06_no_config_dirs", "Econf.C06_no_history"]
 SHRINK = False
-RULE = ("trees of C01 x callback policies (accept all, accept all after reading a policy file through the library inside the callback, "
+RULE = ("trees of C01 x callback policies (accept all, accept all after reading a policy file and a small layered tree through the library inside the callback, "
         "reject the k-th call for k = 0..n, reject by path suffix: the main file, a drop-in, a masked drop-in) x the four callback entry points (single file, layered read, two-directory read, history); the logged "
         "callback calls and file opens and the result are compared with the consulted list computed from the tree; "
         "non-trivial = at least one callback call; distinct by scenario text")
@@ -64,6 +64,9 @@ def make(rng, sid):
     t.emit(s)
     if nested:
         s.file(nested, b"allow=yes\nleaked_from_policy=1\n[A]\nk=policy\n")
+        # ... and a small layered tree of its own, which the callback reads with econf_readDirs
+        s.file(b"/policy/usr/allow.list", b"user root\nleaked_from_policy 2\n")
+        s.file(b"/policy/etc/allow.list.d/10-x.list", b"user admin\n")
     if relative:
         s.add("CD", h(b"/"))
         s.meta["relative"] = True
